@@ -308,16 +308,20 @@ func (g *Gen) BootstrapWhale(e *eng.Engine, refresh func()) {
 			ex("put", &baskettypes.MsgPut{Owner: A[0], BasketDenom: bk, Credits: []*baskettypes.BasketCredit{{BatchDenom: d, Amount: big1}}})
 		}
 	}
-	// a third batch of 10^29 credits stays tradable (the random workload draws wide-sum puts from it);
+	// a third batch of 10^32 credits stays tradable (the random workload draws wide-sum puts from it);
 	// one deterministic put whose entries sum to a value of 35 significant digits (10^28 + 0.000001)
 	{
 		s := time.Date(2017, 3, 1, 0, 0, 0, 0, time.UTC)
 		en := time.Date(2018, 3, 1, 0, 0, 0, 0, time.UTC)
 		r := ex("batch", &basetypes.MsgCreateBatch{Issuer: iss[0], ProjectId: p.Id, Metadata: "whale-wide", StartDate: &s, EndDate: &en, Open: false,
-			Issuance: []*basetypes.BatchIssuance{{Recipient: A[0], TradableAmount: "100000000000000000000000000000"}}})
+			Issuance: []*basetypes.BatchIssuance{{Recipient: A[0], TradableAmount: "100000000000000000000000000000000"}}})
 		if r != nil && r.OK && bk != "" {
 			d := r.Resps[0].(*basetypes.MsgCreateBatchResponse).BatchDenom
 			ex("put-wide", &baskettypes.MsgPut{Owner: A[0], BasketDenom: bk, Credits: []*baskettypes.BasketCredit{{BatchDenom: d, Amount: "10000000000000000000000000000"}, {BatchDenom: d, Amount: "0.000001"}}})
+			// single amounts whose token value needs more than 34 significant digits cannot be converted
+			// exactly by the 34-digit context: refused today — if ever accepted, the backing oracle judges them
+			ex("put-long", &baskettypes.MsgPut{Owner: A[0], BasketDenom: bk, Credits: []*baskettypes.BasketCredit{{BatchDenom: d, Amount: "12345678901234567890123456789012.345670"}}})
+			ex("put-long", &baskettypes.MsgPut{Owner: A[0], BasketDenom: bk, Credits: []*baskettypes.BasketCredit{{BatchDenom: d, Amount: "1234567890123456789012345678901.234567"}}})
 		}
 	}
 	if bk != "" {
